@@ -4,6 +4,8 @@ set -u
 HERE="$(cd "$(dirname "${BASH_SOURCE[0]}")" && pwd)"
 ROOT="$(dirname "$HERE")"
 export CARGO_NET_OFFLINE=true
+# anyhow captures a backtrace for every error value when RUST_BACKTRACE is set: milliseconds per error under a global lock
+export RUST_BACKTRACE=0 RUST_LIB_BACKTRACE=0
 export VERIF_ROOT="$ROOT"
 export CARGO_TARGET_DIR="$ROOT/.target-conc"
 mkdir -p "$ROOT/.logs" "$ROOT/evidence"
